@@ -494,6 +494,32 @@ def evalListToArgs (σ : St) (arr : V) : List V :=
     | _ => []
   | _ => []
 
+/-- function declarations: closures over the current lexical environment, bound (overwriting) in `venv` -/
+def bindDecls : Nat → FDecls → Nat → Ctx → St → Res Unit
+  | 0, _, _, _, _ => .fuel
+  | _+1, .nil, _, _, σ => .ok () σ
+  | n+1, .cons name f ds, venv, c, σ =>
+    let (fv, σ1) := mkFunc σ f c.env
+    bindDecls n ds venv c (bindIn σ1 venv name fv true)
+
+/-- §10.5 declaration binding instantiation for function code, in the order of the standard: step 4 the
+    parameters, step 5 the function declarations, steps 6–7 the arguments object unless `arguments` is already
+    bound, step 8 the variable declarations.  `i` = the new declarative environment, `fv` = the function object. -/
+def instantiate (n : Nat) (i : Nat) (c : Ctx) (ps : List String) (args : List V) (fv : V) (ds : FDecls) (vs : List String)
+    (σ1 : St) : Res Unit :=
+  let σ2 := ((List.range ps.length).zip ps).foldl (fun s (k, name) => bindIn s i name (args[k]?.getD .undef) true) σ1
+  match bindDecls n ds i c σ2 with
+  | .ok _ σ3 =>
+    let σ4 : St :=
+      match σ3.envs[i]? with
+      | some e => (match lookupA "arguments" e.vars with
+        | some _ => σ3
+        | none => let (av, s') := mkArguments σ3 ps args i fv; bindIn s' i "arguments" av true)
+      | none => σ3
+    .ok () (vs.foldl (fun s x => bindIn s i x .undef false) σ4)
+  | .throw t σ3 => .throw t σ3
+  | .fuel => .fuel
+
 mutual
 
 def evalE : Nat → FE → Ctx → St → Res V
@@ -707,14 +733,6 @@ def runCode : Nat → List String → FDecls → FSs → Ctx → St → Res V
     | .throw t σ1 => .throw t σ1
     | .fuel => .fuel
 
-/-- function declarations: closures over the current lexical environment, bound (overwriting) in `venv` -/
-def bindDecls : Nat → FDecls → Nat → Ctx → St → Res Unit
-  | 0, _, _, _, _ => .fuel
-  | _+1, .nil, _, _, σ => .ok () σ
-  | n+1, .cons name f ds, venv, c, σ =>
-    let (fv, σ1) := mkFunc σ f c.env
-    bindDecls n ds venv c (bindIn σ1 venv name fv true)
-
 def evalArgs : Nat → FEs → Ctx → St → Res (List V)
   | 0, _, _, _ => .fuel
   | _+1, .nil, _, σ => .ok [] σ
@@ -784,20 +802,8 @@ def callFn : Nat → St → V → V → List V → Res V
               | t => t
             let (i, σ1) := σ.newEnv { vars := [], outer := some cenv }
             let c : Ctx := { env := i, venv := i, this := thisV }
-            -- §10.5 step 4: parameters
-            let σ2 := ((List.range ps.length).zip ps).foldl (fun s (k, name) => bindIn s i name (args[k]?.getD .undef) true) σ1
-            -- step 5: function declarations
-            match bindDecls n ds i c σ2 with
-            | .ok _ σ3 =>
-              -- step 6–7: the arguments object, unless a parameter or function already has that name
-              let σ4 : St :=
-                match σ3.envs[i]? with
-                | some e => (match lookupA "arguments" e.vars with
-                  | some _ => σ3
-                  | none => let (av, s') := mkArguments σ3 ps args i fv; bindIn s' i "arguments" av true)
-                | none => σ3
-              -- step 8: variable declarations
-              let σ5 := vs.foldl (fun s x => bindIn s i x .undef false) σ4
+            match instantiate n i c ps args fv ds vs σ1 with
+            | .ok _ σ5 =>
               match evalSs n body c σ5 with
               | .ok (.ret v) σ6 => .ok v σ6
               | .ok _ σ6 => .ok .undef σ6
